@@ -19,7 +19,7 @@ DEMODIR=$(dirname $PATCH)
 run_demo() {  # $1 = built tree
   local t=$(mktemp -d /tmp/seeddemo_XXXX); cp -r $DEMODIR/* $t/; cd $t
   if [ -f demo.sh ]; then sh demo.sh $1 $1/_build/libcolvars.a >demo.log 2>&1; rc=$?;
-  else g++ -std=c++17 -O1 -fopenmp -w -I$1/src -I$1/misc_interfaces/stubs demo.cpp $1/misc_interfaces/stubs/colvarproxy_stub.cpp $1/_build/libcolvars.a -o demo_exe >demo.log 2>&1 && ./demo_exe >>demo.log 2>&1; rc=$?; fi
+  else g++ -std=c++17 -O1 -fopenmp -w -I$1/src -I$1/misc_interfaces/stubs demo.cpp $1/misc_interfaces/stubs/colvarproxy_stub.cpp $1/_build/libcolvars.a -o demo_exe >demo.log 2>&1 && ./demo_exe $([ -f demo.in ] && echo demo.in) >>demo.log 2>&1; rc=$?; fi
   grep -E "^(PASS|FAIL)" demo.log | tail -1
   cd /; rm -rf $t; return $rc
 }
